@@ -10,10 +10,14 @@
      elements are always inside the object.
    History-level inline-ness is then an induction over [C05_smallvector_inline_promise] (each step preserves "inline" as long
    as sizes stay within N); the taint conditions of the property (size or reserve beyond N, adopted heap buffer) are exactly
-   the hypotheses under which the lemma does not apply.  SmallSet: C04_invariant_every_history + the same lemma for its
-   inline FixedCapacityVector; that an empty std::set allocates nothing is a libstdc++ fact, observed by the driver. *)
+   the hypotheses under which the lemma does not apply.
+   - [C05_smallset_inline_promise] (SetModel.v): an inline SmallSet whose insert / insert(range) / merge from another inline
+     set ends with at most N elements is still inline, for every strict weak order and every N ([Honest]: a SmallSet leaves
+     the inline state only when it really holds more than N elements); erasures keep an inline set inline.  An inline
+     SmallSet stores its elements in a FixedCapacityVector (previous theorem); that its empty backing std::set / FlatSet
+     allocates nothing is a libstdc++ / C05-for-vectors fact observed by the set driver's allocator oracle. *)
 From Coq Require Import ZArith List Bool.
-From Amc Require Import GenPrelude Words VecModel VecProofs.
+From Amc Require Import GenPrelude Words VecModel VecProofs SetModel SetProofs.
 Import ListNotations.
 Local Open Scope Z_scope.
 
@@ -37,6 +41,19 @@ Theorem C05_fixedcapacity_never_allocates :
     (forall x, b_free c x = []) /\ (forall x, snd (b_shrink c x) = []) /\ (forall t o, snd (b_move_assign c t o) = []) /\
     (forall x, b_store c x = SInl).
 Proof. exact fcv_base_no_events. Qed.
+
+Theorem C05_smallset_inline_promise :
+  forall cmp, swo cmp -> forall N s, SInv cmp N s -> ss_small s = true ->
+    (forall v, (ss_size (fst (fst (ss_insert cmp N s v))) <= N)%nat -> ss_small (fst (fst (ss_insert cmp N s v))) = true) /\
+    (forall vs, (ss_size (ss_insert_range cmp N s vs) <= N)%nat -> ss_small (ss_insert_range cmp N s vs) = true) /\
+    (forall o, ss_small o = true -> (ss_size (fst (ss_merge cmp N s o)) <= N)%nat -> ss_small (fst (ss_merge cmp N s o)) = true).
+Proof. exact S_inline_promise. Qed.
+
+(* non-vacuity: {1,2,3}.merge({4,1}) with N = 4 stays inline (the seeded change C05-merge-early-grow makes it large) *)
+Example C05_example_set :
+  let s := {| svec := [1; 2; 3]; sset_ := [] |} in let o := {| svec := [4; 1]; sset_ := [] |} in
+  ss_small (fst (ss_merge Z.ltb 4%nat s o)) = true /\ ss_elems (fst (ss_merge Z.ltb 4%nat s o)) = [1; 2; 3; 4] /\ ss_elems (snd (ss_merge Z.ltb 4%nat s o)) = [1].
+Proof. vm_compute. repeat split. Qed.
 
 (* non-vacuity: the three-step history of the historic defect (full inline <- partly filled inline, then push) stays inline *)
 Example C05_example :
